@@ -205,6 +205,8 @@ def gen_history(rng, tier, forced_sizes, allow_real):
     if rng.random() < 0.25:
         synth = gen_struct(rng)
     last_image = None
+    share_image_path = rng.random() < 0.3      # the boots of this history name one image / struct file path,
+    share_struct_path = rng.random() < 0.3     # rewritten in place between them
     for i in range(ncalls):
         c = dict(via="mc" if rng.random() < 0.15 else "func", host="127.0.0.%d" % rng.randint(1, 6),
                  port=rng.choice([None, None, None, 54321, 17, 65535]), kwargs=[], overrides=None, tags=[])
@@ -239,10 +241,15 @@ def gen_history(rng, tier, forced_sizes, allow_real):
             c["image"] = dict(kind="lcg", n=4 * rng.randint(128, 1050), seed=rng.randint(1, 10 ** 6))
             c["tags"].append("size:random")
         last_image = c["image"]
+        if share_image_path:
+            c["image_path"] = "img"
+            c["tags"].append("path:image-rewritten-in-place")
         # struct file
         if synth is not None and rng.random() < 0.8:
             c["struct"] = dict(kind="text", text=synth[0])
             c["tags"].append("struct:" + synth[1])
+            if share_struct_path:
+                c["struct_path"] = "struct"
         else:
             c["struct"] = dict(kind="bundled")
             c["tags"].append("struct:bundled")
@@ -639,6 +646,71 @@ def run(chk, args):
                     c1 = simple(5, 1024, 7, 1474848000, **opt)
                     c1["tags"] = ["family", "options:does-not-fit"]
                     histories.append(dict(slots=[], calls=[c1, simple(6, 1024, 7, 1474848000)]))
+        # ... options named like the parameters of boot() / MachineController.boot (the system variable
+        # boot_delay is also the name of boot()'s timing parameter): via sv_overrides= through both entry points,
+        # alone, with other options, with the timing parameter given too; and a struct whose fields carry every
+        # parameter name, overridden via sv_overrides= (both entry points) and by keyword where that is an option
+        for via in ("func", "mc"):
+            for v in (0, 33, 255):
+                for extra in ([], [["hw_ver", 3]], [["led0", 1282], ["boot_sig", 9]]):
+                    for tdelay in (None, 0.01):
+                        c1 = simple(1, 1024, 3, 1474848000, via=via, overrides=dict(fresh=[["boot_delay", v]] + extra))
+                        if tdelay is not None:
+                            c1["boot_delay"] = tdelay
+                        c1["tags"] = ["family", "options:named-like-a-parameter"]
+                        histories.append(dict(slots=[], calls=[c1, simple(2, 1024, 3, 1474848001, via=via)]))
+        pnames = ["hostname", "boot_port", "scamp_binary", "sark_struct", "boot_delay", "post_boot_delay",
+                  "sv_overrides", "width", "height", "only_if_needed", "check_booted", "kwargs", "boot_kwargs"]
+        ptext = "name = sv\nsize = 128\nbase = 0xf5007f00\n" + "".join(
+            "%-16s C  0x%02x  %%d  %d\n" % (nm, k, k + 1) for k, nm in enumerate(pnames)) + (
+            "unix_time V 0x20 %08x 0\nboot_sig V 0x24 %08x 0\nroot_chip C 0x28 %d 0\nhw_ver C 0x29 %d 0\n")
+        for via in ("func", "mc"):
+            for k, nm in enumerate(pnames):
+                c1 = simple(1, 1024, 3, 1474848000, via=via, struct=dict(kind="text", text=ptext),
+                            overrides=dict(fresh=[[nm, 100 + k]]))
+                c1["tags"] = ["family", "options:named-like-a-parameter"]
+                histories.append(dict(slots=[], calls=[c1]))
+            c1 = simple(1, 1024, 3, 1474848000, via=via, struct=dict(kind="text", text=ptext),
+                        overrides=dict(fresh=[[nm, 200 + k] for k, nm in enumerate(pnames)]))
+            c1["tags"] = ["family", "options:named-like-a-parameter"]
+            histories.append(dict(slots=[], calls=[c1]))
+        for nm in ("width", "height", "only_if_needed", "check_booted", "kwargs", "boot_kwargs"):
+            c1 = simple(1, 1024, 3, 1474848000, struct=dict(kind="text", text=ptext), kwargs=[[nm, 77]])
+            c1["tags"] = ["family", "options:named-like-a-parameter"]
+            histories.append(dict(slots=[], calls=[c1]))
+        for nm in ("kwargs", "boot_kwargs"):
+            c1 = simple(1, 1024, 3, 1474848000, via="mc", struct=dict(kind="text", text=ptext), kwargs=[[nm, 78]])
+            c1["tags"] = ["family", "options:named-like-a-parameter"]
+            histories.append(dict(slots=[], calls=[c1]))
+        # ... the image file and the struct file rewritten IN PLACE between the boots of one process (same path,
+        # modification time pinned to the same second): same size / different content, then another size
+        sa = ("name = sv\nsize = 128\nbase = 0xf5007f00\nhw_ver C 0x00 %d 3\nled0 V 0x04 %08x 0x00000502\n"
+              "unix_time V 0x10 %08x 0\nboot_sig V 0x14 %08x 0\nroot_chip C 0x18 %d 0\ncpu_clk v 0x1a %d 200\n")
+        sb = sa.replace("%d 3\n", "%d 4\n").replace("0x00000502", "0x00000001").replace("%d 200", "%d 150")
+        assert len(sa) == len(sb) and sa != sb
+        for via in ("func", "mc"):
+            for sizes in ([(2048, 1), (2048, 2), (2048, 3)], [(1024, 5), (1024, 6), (3072, 6), (3072, 7)],
+                          [(27168, 1), (27168, 2)]):
+                for structs in (None, [sa, sb, sa, sb]):
+                    calls = []
+                    for k, (n, seed) in enumerate(sizes):
+                        c1 = simple(1 + k, n, seed, 1474848000 + k, via=via, image_path="img",
+                                    **(dict(preset_kwargs=1 + k) if k % 2 == 0 else {}))
+                        if structs is not None:
+                            c1["struct"] = dict(kind="text", text=structs[k])
+                            c1["struct_path"] = "struct"
+                        c1["tags"] = ["family", "path:image-rewritten-in-place"] + (
+                            ["path:struct-rewritten-in-place"] if structs is not None else [])
+                        calls.append(c1)
+                    histories.append(dict(slots=[], calls=calls))
+            # the struct file alone rewritten, each boot with an image file of its own
+            calls = []
+            for k, text in enumerate([sa, sb, sb, sa]):
+                c1 = simple(1 + k, 1024, 9 + k, 1474848000 + k, via=via, struct=dict(kind="text", text=text),
+                            struct_path="struct")
+                c1["tags"] = ["family", "path:struct-rewritten-in-place"]
+                calls.append(c1)
+            histories.append(dict(slots=[], calls=calls))
         # ... and, in the thorough tier, every image size 0, 4, ..., 4200 and every single-field override of
         # the bundled struct at its extreme values
         if chk.tier != "quick":
@@ -762,7 +834,9 @@ def run(chk, args):
         "object passed as the dictionary, unknown names, out-of-range values; plus exhaustively every ordered pair "
         "(preset i, then preset j or no option), values that do not fit their field (max+1, wrap-arounds, 2^40, -1 for "
         "byte / half-word / word variables of the configuration area, as keyword and in sv_overrides: the boot must "
-        "refuse, never return normally with an image) and the F4 history; thorough tier adds every image size 0,4,...,4200 "
+        "refuse, never return normally with an image), options named like parameters of boot()/MachineController.boot "
+        "(boot_delay via sv_overrides= through both entry points; a struct whose fields carry every parameter name), "
+        "image and struct files rewritten in place between boots (same path, same size, same second) and the F4 history; thorough tier adds every image size 0,4,...,4200 "
         "and every field of the bundled sv overridden with 0 / max / max+1 / -1 followed by a boot without options; "
         "non-trivial = at least one boot inside "
         "the property's domain succeeded and the history has >= 2 boots or that boot carried options; distinct by "
